@@ -9,9 +9,19 @@ point -> it simply completes); `torn`: call k is executed half-way when it is a 
 write of a history data row; `soft`: the death is an interrupt that unwinds through the library's
 handlers (c16_fs). After the schedule one more session runs to the end.
 
-"Training" is deterministic so that every state is recognisable: the model holds one float64 `w`,
-the optimizer one integer `tag` in its parameter group; epoch e turns (w, t) into (3w + e, 5t + e).
+"Training" is deterministic. So that every state is recognisable, the model holds one float64 `w` and the
+optimizer one integer `tag` in its first parameter group; epoch e turns (w, t) into (3w + e, 5t + e) —
+these two numbers, plus the learning rate of the parameter groups, are the state's *identity* (what the
+Lean model carries: `St = w × Opt{t, lr}`). So that the REST of a checkpoint matters too, the model also
+holds parameters `v` (group 0) and `u` (group 1, hyper-parameters of its own) that are trained by genuine
+`optimizer.step()` calls (SGD with momentum or Adam: the step depends on the learning rate and on the
+per-parameter state) and a buffer `seen`. The *full* state = `model.state_dict()` + `optimizer.state_dict()`
+(every hyper-parameter of every group, every state tensor), canonicalised bit for bit (`canon`), is
+compared with the uninterrupted run's at the same epoch: after every load, for every file on disk, after
+every completed update and at the end of the continued run.
 """
+import hashlib
+import json
 import os
 import shutil
 import tempfile
@@ -31,30 +41,67 @@ def uninterrupted_states(n):
 
 
 _MODEL_CLS = []
+JUNK_LR = 7.0
 
 
-def fresh_model_opt():
+def lr0_of(case):
+    """The learning rate of an experiment: TrainingStateParams.log10_learning_rate when given, else the
+    optimizer's own default (the controller reads `optimizer.defaults["lr"]` at the first update)."""
+    l10 = case.get("extra_params", {}).get("log10_learning_rate")
+    if l10 is not None:
+        return 10 ** l10
+    return case.get("lr0", 0.5)
+
+
+def fresh_model_opt(case=None):
+    """A model and an optimizer as a freshly started process has them BEFORE anything is loaded: junk
+    parameters, no optimizer state. Two parameter groups with hyper-parameters of their own. When the
+    experiment's learning rate comes from the parameters, the optimizer is built with a junk rate: the
+    right one has to come out of the load (epoch 0: 10**log10_learning_rate; epoch >= 1: the checkpoint)."""
     import torch
+    case = case or {}
     if not _MODEL_CLS:
         class M(torch.nn.Module):
             def __init__(self):
                 super().__init__()
                 self.w = torch.nn.Parameter(torch.zeros(1, dtype=torch.float64))
+                self.v = torch.nn.Parameter(torch.zeros(2, dtype=torch.float64))
+                self.u = torch.nn.Parameter(torch.zeros(1, dtype=torch.float64))
+                self.register_buffer("seen", torch.zeros(1, dtype=torch.int64))
 
             def reset_parameters(self):
                 with torch.no_grad():
                     self.w.fill_(0.0)
+                    self.v.fill_(0.0)
+                    self.u.fill_(0.0)
+                    self.seen.fill_(0)
         _MODEL_CLS.append(M)
     m = _MODEL_CLS[0]()
     with torch.no_grad():
         m.w.fill_(-1.0)  # junk until something is loaded
-    o = torch.optim.SGD(m.parameters(), lr=1.0)
+        m.v.fill_(-1.0)
+        m.u.fill_(-1.0)
+        m.seen.fill_(-1)
+    from_params = case.get("extra_params", {}).get("log10_learning_rate") is not None
+    lr = JUNK_LR if from_params else lr0_of(case)
+    if case.get("optim", "sgd") == "adam":
+        o = torch.optim.Adam([{"params": [m.w, m.v]}, {"params": [m.u], "betas": (0.5, 0.75)}], lr=lr)
+    else:
+        o = torch.optim.SGD([{"params": [m.w, m.v], "momentum": 0.5},
+                             {"params": [m.u], "momentum": 0.25, "weight_decay": 0.125}], lr=lr)
     o.param_groups[0]["tag"] = 0  # initial optimizer state; overwritten by any load of epoch >= 1
     return m, o
 
 
+def lr_of_groups(groups):
+    lrs = [g.get("lr") for g in groups]
+    return lrs[0] if all(x == lrs[0] for x in lrs) else lrs
+
+
 def get_state(m, o):
-    return int(m.w.item()) if float(m.w.item()).is_integer() else float(m.w.item()), o.param_groups[0].get("tag")
+    """The identity of what the process holds: (w, tag, learning rate of the parameter groups)."""
+    w = float(m.w.item())
+    return int(w) if w.is_integer() else w, o.param_groups[0].get("tag"), lr_of_groups(o.param_groups)
 
 
 def set_state(m, o, w, t):
@@ -62,6 +109,90 @@ def set_state(m, o, w, t):
     with torch.no_grad():
         m.w.fill_(float(w))
     o.param_groups[0]["tag"] = t
+
+
+def train_epoch(e, m, o):
+    """One epoch of training: the recognisable part (w, tag) and genuine optimizer steps on v and u
+    (gradients are dyadic functions of the epoch; w gets no gradient, the optimizers skip it)."""
+    import torch
+    w, t, _ = get_state(m, o)
+    w, t = train_step(e, w, t)
+    set_state(m, o, w, t)
+    with torch.no_grad():
+        m.seen.mul_(2).add_(e)
+    for step in range(2):
+        o.zero_grad(set_to_none=True)
+        m.v.grad = torch.tensor([e / 4.0 + step, -e / 8.0], dtype=torch.float64)
+        m.u.grad = torch.tensor([e / 2.0 - step], dtype=torch.float64)
+        o.step()
+    o.zero_grad(set_to_none=True)
+
+
+def canon(x):
+    """Bit-exact JSON-able picture of a state dict (tensors: dtype, shape, values; floats as hex)."""
+    import torch
+    if isinstance(x, torch.Tensor):
+        flat = x.detach().reshape(-1).tolist()
+        return {"dtype": str(x.dtype).replace("torch.", ""), "shape": list(x.shape),
+                "v": [float(v).hex() if isinstance(v, float) else v for v in flat]}
+    if isinstance(x, bool) or x is None or isinstance(x, (int, str)):
+        return x
+    if isinstance(x, float):
+        return x.hex()
+    if isinstance(x, dict):
+        return {str(k): canon(v) for k, v in x.items()}
+    if isinstance(x, (list, tuple)):
+        return [canon(v) for v in x]
+    return repr(x)
+
+
+def full_state(m, o):
+    return {"model": canon(m.state_dict()), "optim": canon(o.state_dict())}
+
+
+def digest(c):
+    return hashlib.sha1(json.dumps(c, sort_keys=True).encode()).hexdigest()[:12]
+
+
+def _unhex(v):
+    if isinstance(v, str):
+        try:
+            return float.fromhex(v)
+        except ValueError:
+            return v
+    if isinstance(v, dict) and set(v) == {"dtype", "shape", "v"}:
+        return [_unhex(x) for x in v["v"]]
+    return v
+
+
+def diff_canon(a, b, path="", out=None, limit=4):
+    """Where two canonical pictures differ: ["optim.param_groups.0.lr: 0.1 != 0.05", ...]."""
+    if out is None:
+        out = []
+    if len(out) >= limit or a == b:
+        return out
+    if isinstance(a, dict) and isinstance(b, dict) and set(a) != {"dtype", "shape", "v"}:
+        for k in sorted(set(a) | set(b)):
+            if k not in a or k not in b:
+                if len(out) < limit:
+                    out.append(f"{path}{k}: {'absent' if k not in a else 'present'} != "
+                               f"{'absent' if k not in b else 'present'}")
+            else:
+                diff_canon(a[k], b[k], f"{path}{k}.", out, limit)
+    elif isinstance(a, list) and isinstance(b, list) and len(a) == len(b):
+        for i, (x, y) in enumerate(zip(a, b)):
+            diff_canon(x, y, f"{path}{i}.", out, limit)
+    elif len(out) < limit:
+        out.append(f"{path.rstrip('.')}: {_unhex(a)} != {_unhex(b)}")
+    return out
+
+
+def diff_vs_ref(full, ref, e):
+    """Difference between a full state and the uninterrupted run's state after epoch e (None: the
+    uninterrupted run has no such epoch, e.g. it refused earlier)."""
+    if ref is None or e is None or e >= len(ref["mem"]) or e < 0:
+        return None
+    return diff_canon(full, ref["mem"][e])
 
 
 def names(case, n):
@@ -122,7 +253,8 @@ _CONTENT_CACHE = {}
 
 
 def classify_content(path):
-    """What a file holds: ["empty"] | ["torn"] | ["model", w] | ["optim", tag]. Cached by the bytes."""
+    """What a file holds: ["empty"] | ["torn"] | ["model", w, digest] | ["optim", tag, lr, digest] (digest of
+    the canonical picture of the whole state dict). Cached by the bytes."""
     import io
     import torch
     try:
@@ -143,9 +275,9 @@ def classify_content(path):
             c = ["torn"]
         elif isinstance(d, dict) and "w" in d:
             v = float(d["w"].item())
-            c = ["model", int(v) if v.is_integer() else v]
+            c = ["model", int(v) if v.is_integer() else v, digest(canon(d))]
         elif isinstance(d, dict) and "param_groups" in d:
-            c = ["optim", d["param_groups"][0].get("tag")]
+            c = ["optim", d["param_groups"][0].get("tag"), lr_of_groups(d["param_groups"]), digest(canon(d))]
         else:
             c = ["other"]
         _CONTENT_CACHE[data] = c
@@ -276,10 +408,12 @@ def user_value(e):
     return 7 * e + 1
 
 
-def session(case, ws, crash=None, record=None):
+def session(case, ws, crash=None, record=None, ref=None):
     """One process lifetime. crash = (epoch, k, torn[, soft]) or None. Returns dict describing what happened.
-    `record`, when given, receives per-epoch traces of completed updates (epoch -> abstract trace) and
-    a disk snapshot after every completed update."""
+    `record`, when given, receives one entry per completed update: its abstract trace, a disk snapshot,
+    the identity of the state held in memory afterwards, the learning rate the history row of the epoch
+    records, and — `ref` (the uninterrupted run, see C16.reference) given — where the full in-memory state
+    differs from the uninterrupted run's after the same epoch (without `ref`: the full state itself)."""
     import warnings
     vals = case["vals"]
     n = len(vals)
@@ -293,7 +427,7 @@ def session(case, ws, crash=None, record=None):
             except Exception as e:
                 out["init_error"] = type(e).__name__
                 return out
-            m, o = fresh_model_opt()
+            m, o = fresh_model_opt(case)
             try:
                 if case.get("user_entry"):
                     ctrl.add_entry(USER_ENTRY, int)     # re-reads the history with the extra column
@@ -307,11 +441,15 @@ def session(case, ws, crash=None, record=None):
                 return out
             e = ctrl.get_last_epoch()
             out["start_epoch"] = e
+            out["start_state"] = list(get_state(m, o))
+            if ref is None:
+                out["start_full"] = full_state(m, o)
+                out["start_row_lr"] = ctrl.get_info(e)["lr"]
+            else:
+                out["start_diff"] = diff_vs_ref(full_state(m, o), ref, e)
             while e < n:
                 e += 1
-                w, t = get_state(m, o)
-                w, t = train_step(e, w, t)
-                set_state(m, o, w, t)
+                train_epoch(e, m, o)
                 tm, vm = vals[e - 1]
                 if crash is not None and crash[0] == e:
                     tr.arm(crash[1], bool(crash[2]), bool(crash[3]) if len(crash) > 3 else False)
@@ -343,10 +481,18 @@ def session(case, ws, crash=None, record=None):
                 finally:
                     tr.disarm()
                 if record is not None:
-                    record.append({"epoch": e, "trace": abstract_trace(case, n, ws.state_dir, ws.csv, tr.ops),
-                                   "disk": snapshot(case, n, ws.state_dir, ws.csv)})
+                    r = {"epoch": e, "trace": abstract_trace(case, n, ws.state_dir, ws.csv, tr.ops),
+                         "disk": snapshot(case, n, ws.state_dir, ws.csv),
+                         "mem": list(get_state(m, o)), "row_lr": ctrl.get_info(e)["lr"]}
+                    if ref is None:
+                        r["mem_full"] = full_state(m, o)
+                    else:
+                        r["mem_diff"] = diff_vs_ref(full_state(m, o), ref, e)
+                    record.append(r)
             out["end_epoch"] = e if not out["crashed"] and "update_error" not in out else e - 1
             out["final_state"] = list(get_state(m, o))
+            if ref is not None and not out["crashed"] and "update_error" not in out:
+                out["final_diff"] = diff_vs_ref(full_state(m, o), ref, e)
     if tr.unexpected:
         out["unexpected_mutators"] = sorted(set(tr.unexpected))
     if tr.idle:
@@ -356,12 +502,13 @@ def session(case, ws, crash=None, record=None):
     return out
 
 
-def recover(case, ws):
-    """What a controller started now on these files sees and can load (no instrumentation)."""
+def recover(case, ws, ref=None):
+    """What a controller started now on these files sees and can load (no instrumentation): the identity
+    of the state loaded for the last and for the best epoch and where the FULL loaded state (model state
+    dict, optimizer param_groups and per-parameter state) differs from what the uninterrupted run `ref`
+    held in memory after that epoch."""
     import warnings
     from pydrobert.torch import training
-    n = len(case["vals"])
-    U = uninterrupted_states(n)
     out = {}
     with warnings.catch_warnings():
         warnings.simplefilter("ignore")
@@ -372,17 +519,19 @@ def recover(case, ws):
         rows = sorted(k for k in ctrl.cache_hist if k != 0)
         out["rows"] = rows
         out["row_vals"] = [[ctrl.cache_hist[k]["train_met"], ctrl.cache_hist[k]["val_met"]] for k in rows]
+        out["row_lrs"] = [ctrl.cache_hist[k]["lr"] for k in rows]
         last = ctrl.get_last_epoch()
         best = ctrl.get_best_epoch(bool(case.get("best_is_train", False)))
         out["last"], out["best"] = last, best
         for nm, ep in (("last", last), ("best", best)):
-            m, o = fresh_model_opt()
+            m, o = fresh_model_opt(case)
             try:
                 ctrl.load_model_and_optimizer_for_epoch(m, o, ep)
                 out["load_" + nm] = list(get_state(m, o))
+                out["load_" + nm + "_diff"] = diff_vs_ref(full_state(m, o), ref, ep)
             except Exception as e:
                 out["load_" + nm] = ["error", type(e).__name__]
-        m, o = fresh_model_opt()
+        m, o = fresh_model_opt(case)
         try:
             ctrl.load_model_for_epoch(m)        # documented default: best by validation metric
             out["load_best_default"] = get_state(m, o)[0]
